@@ -32,7 +32,7 @@ def c16(ck):
     allk = [k for k in kinds() if k != "upgrade"]
     for _ in range(4 if quick else 30):
         seqs.append([(rng.choice(allk), rng.choice(list(ALL_FLAGS))) for _ in range(rng.randint(1, 8))])
-    transports = ["unixpath", "unixmode", "abstract", "tcp", "activate", "bridge"]
+    transports = ["unixpath", "unixmode", "unixstale", "unixmodestale", "abstract", "tcp", "activate", "bridge"]
     for si, seq in enumerate(seqs):
         reqs = [make(k, f, {"n": i}) for i, (k, f) in enumerate(seq)]
         s = stream_of(reqs)
